@@ -348,7 +348,7 @@ def prop(case):
                     raise Violation("wrong-count", f"{what}: {len(exp)} texts but {len(got) if isinstance(got, list) else got!r} results")
                 for j, (g, e) in enumerate(zip(got, exp)):
                     if g is None or list(g) != e:
-                        owner = [t for t in set(indexed + [x for r in case["requests"] for x in r["texts"]]) if g is not None and list(g) == vec(t)]
+                        owner = [t for t in sorted(set(indexed + [x for r in case["requests"] for x in r["texts"]])) if g is not None and list(g) == vec(t)]
                         raise Violation(
                             "wrong-embedding",
                             f"{what}: result {j} for text {req['texts'][j]!r} is "
